@@ -7,6 +7,7 @@ package main
 import (
 	"context"
 	"fmt"
+	"os"
 	"strings"
 	"sync"
 
@@ -78,7 +79,7 @@ func c11Worker(w *W) {
 				if it.File != "" || it.Line != 0 {
 					w.Violate("C11:location-when-disabled:"+mode, fmt.Sprintf("caller lookup disabled but the record of site %d (%s/%s) carries %s:%d", n, s.entry, s.shape, it.File, it.Line), cs)
 				} else {
-					w.Distinct(fmt.Sprintf("%s|%s|off|%s", s.entry, s.shape, mode))
+					w.Distinct(fmt.Sprintf("%s|%s|off|%s|%s", s.entry, s.shape, mode, w.Spec.Flavour))
 				}
 				continue
 			}
@@ -91,7 +92,7 @@ func c11Worker(w *W) {
 				w.Violate("C11:modes-disagree", fmt.Sprintf("site %d reported %s in one mode and %s in another", n, prev, loc), cs)
 			}
 			seenLoc[n] = loc
-			w.Distinct(fmt.Sprintf("%s|%s|on|%s", s.entry, s.shape, mode))
+			w.Distinct(fmt.Sprintf("%s|%s|on|%s|%s", s.entry, s.shape, mode, w.Spec.Flavour))
 		}
 		for i, s := range c11sites {
 			want := 3
@@ -156,7 +157,7 @@ func c11Worker(w *W) {
 			}
 			w.Count("concurrent_observations_matched", int64(okN))
 			if okN > 0 {
-				w.Distinct("concurrent|" + mode)
+				w.Distinct("concurrent|" + mode + "|" + w.Spec.Flavour)
 			}
 		}
 	}
@@ -196,10 +197,26 @@ func init() {
 				s.Flavour = fl
 				specs = append(specs, s)
 			}
-			outs := d.RunWorkers(specs, 3)
+			flavours := []string{"default", "-gcflags=all=-l", "-race"}
+			if !d.Quick() {
+				// thorough: the same program compiled by the second pre-installed toolchain (go1.26.8), with and without inlining
+				for _, fl := range []string{"go126", "go126noinline"} {
+					if _, err := os.Stat(d.bin(fl)); err != nil {
+						d.mu.Lock()
+						d.Notes = append(d.Notes, "build flavour "+fl+" not available (toolchain go1.26.8 absent)")
+						d.mu.Unlock()
+						continue
+					}
+					s := d.NewSpec("sites", "sites-"+fl, len(specs), 5)
+					s.Flavour = fl
+					specs = append(specs, s)
+					flavours = append(flavours, map[string]string{"go126": "go1.26.8 default", "go126noinline": "go1.26.8 -gcflags=all=-l"}[fl])
+				}
+			}
+			outs := d.RunWorkers(specs, 5)
 			d.raceVerdict(outs)
-			d.Extra["programs"] = 3
-			d.Extra["build_flavours"] = []string{"default", "-gcflags=all=-l", "-race"}
+			d.Extra["programs"] = len(specs)
+			d.Extra["build_flavours"] = flavours
 		},
 	})
 }
